@@ -28,11 +28,9 @@ for the C family, C17 model `Fortran.fortranSource` / `group` / `pnodeOf` for Fo
 C17's reference scanner (`Fortran.refText`: counted lines; `Fortran.refNodes`: their grouping) under C17's guard (inside WF,
 no F-C17-1 line) and the same C01 reference machine per `-D` list.  The grouping of the counted lines of a Fortran file into
 nodes is PROVED for the model (`C17.nodes_eq_ref`, `C06.fortran_groups_are_reference`, `C06.line_attribution_is_reference_mixed`)
-under the FULL guard — additionally no line of finding class F-C17-2 (`Spec/FortranHash.lean`: a continuation line whose `#`
-opens the text of a statement that began with lone `&` lines; the code reads it as a preprocessor directive) — and compared
-here as well; the driver reports the F-C17-2 lines per file (`hash`) and `wf` requires the full guard.  The generator puts
-lone `&` lines in front of statements (inside the full guard) and, rarely, an F-C17-2 line (outside it: model comparison only — the
-model reads the line as a directive, `C17.finding_F_C17_2`, and so must the implementation).
+under C17's guard and compared here as well.  The generator puts lone `&` lines in front of statements and, rarely, makes the
+first text of such a statement a `#` on a continuation line (the shape of the repaired defect F-C17-2: before the repair the code
+read that line as a preprocessor directive; `C17.F_C17_2_fixed`).
 """
 from __future__ import annotations
 
@@ -109,7 +107,7 @@ def gen_ftext(rng):
 def lone_amp(rng, text, hash_head=False):
     """a statement that BEGINS with lines holding only `&` (F2018 6.3.2.4 forbids them, compilers warn, the C17 reference accepts
     them), put where a statement can start for sure: at the top of the text or right after a preprocessor directive line.
-    hash_head: the first text of that statement is a `#` on a continuation line — finding class F-C17-2"""
+    hash_head: the first text of that statement is a `#` on a continuation line — the shape of the repaired defect F-C17-2"""
     lines = text.split("\n")
     spots = [0] + [i + 1 for i, ln in enumerate(lines[:-1]) if ln.lstrip().startswith("#")]
     at = rng.choice(spots)
@@ -428,8 +426,6 @@ def run_one(ctx, drv, case, origin):
         for sf in rep["spec"]["files"]:
             if sf.get("lang") == "fortran-free":
                 ctx.dist["txt:fortran file inside the C17 guard" if sf["guard"] else "txt:fortran file outside the C17 guard"] += 1
-                if sf.get("hash"):
-                    ctx.dist["txt:fortran file with an F-C17-2 line (outside the full guard)"] += 1
     ctx.dist["txt:coverage computed" if cov is not None else "txt:no platform for coverage"] += 1
     for f in case["files"]:
         if f.get("eol"):
